@@ -1132,7 +1132,7 @@ func evalCase(c *Ctx, ops []op, kind string) {
 	if string(file[12:16]) == "VP8X" {
 		layout = "ext"
 	}
-	if layout == "ext" {
+	if layout == "ext" && (c.Thorough() || c.D.Evaluations%2 == 0) {
 		fileVariants(c, file, dm, replay)
 	}
 	sig := fmt.Sprintf("%s-%s-n%d-m%d%d%d", cls, layout, len(sh.frames), muxh.B2i(sh.icc != nil), muxh.B2i(sh.exif != nil), muxh.B2i(sh.xmp != nil))
